@@ -1057,7 +1057,7 @@ namespace cppcms { namespace xss {
 		bool parse_full()
 		{
 			is_relative_ = false;
-			return uri_reference() && begin_ == end_;
+			return uri() && begin_ == end_;
 		}
 
 		bool has_scheme() const
